@@ -524,13 +524,26 @@ func (c *c07Case) judge(cr c07Crash, depth int) []c07Crash {
 	return sub
 }
 
-var c07Pre = []string{"fresh", "fresh", "present-odsq4", "present-ods", "other-height-odsq4", "other-height-ods"}
+var c07Pre = []string{"fresh", "fresh", "present-odsq4", "present-odsq4", "present-ods", "other-height-odsq4", "other-height-ods"}
 
 func c07Widths() []int {
-	if vk.Thorough() {
-		return []int{1, 2, 4, 4, 8, 8, 16, 16}
+	// VERIF_C07_ODS (comma separated) overrides the widths, e.g. "16" for a run of large squares only
+	if v := os.Getenv("VERIF_C07_ODS"); v != "" {
+		var out []int
+		for _, f := range strings.Split(v, ",") {
+			var n int
+			if _, err := fmt.Sscanf(f, "%d", &n); err == nil && n >= 1 && n <= 64 && n&(n-1) == 0 {
+				out = append(out, n)
+			}
+		}
+		if len(out) > 0 {
+			return out
+		}
 	}
-	return []int{1, 2, 2, 4, 4, 4, 8, 16}
+	if vk.Thorough() {
+		return []int{1, 2, 4, 4, 8, 8, 16}
+	}
+	return []int{1, 2, 2, 4, 4, 8, 8} // ods 16 has its own run (crash16)
 }
 
 // TestVerifC07_CrashEnumeration: see the file comment.
